@@ -155,6 +155,15 @@ def run(chk):
         return build({"a": ("input", []), "b": ("input", []), "p": ("buf", ["a"]), "q": ("buf", [second]), "r": ("buf", ["b"]), "o": (gate, ["p", "q", "r"])}, outputs=["o"])
     for gate in ("xor", "xnor", "and", "or"):
         cases.append((f"identical operands with different multiplicities::{gate}", _mult(gate, True), _mult(gate, False), None, None))
+    # the empty choice is a choice: nothing tied (both copies free), nothing compared (sat is constant 0); two circuits without a
+    # common endpoint compare nothing by default; an empty second circuit is a circuit, not "no second circuit"
+    cases.append(("explicit-empty-startpoints", cA, retyped(cA, "g", "or"), set(), None))
+    cases.append(("explicit-empty-startpoints::self-miter", cH, None, set(), None))
+    cases.append(("explicit-empty-endpoints", cA, retyped(cA, "g", "or"), None, set()))
+    cY = build({"a": ("input", []), "b": ("input", []), "y": ("and", ["a", "b"])}, outputs=["y"])
+    cZ = build({"a": ("input", []), "b": ("input", []), "z": ("or", ["a", "b"])}, outputs=["z"])
+    cases.append(("no-common-endpoint", cY, cZ, None, None))
+    cases.append(("empty-second-circuit", cY, RefCircuit("empty"), None, None))
     # self-miters (c1 omitted) of circuits whose own node names contain the copy prefixes
     cS = build({"c0_n": ("input", []), "c1_n": ("input", []), "xc0_y": ("and", ["c0_n", "c1_n"]), "c1_c0_z": ("xor", ["xc0_y", "c0_n"])}, outputs=["c1_c0_z", "xc0_y"])
     cases.append(("self-miter::names containing c0_ / c1_", cS, None, None, None))
@@ -172,11 +181,22 @@ def run(chk):
             continue
         if c1 is None:
             c1 = c0
-        tied = set(sps) if sps else c0.startpoints() & c1.startpoints()
-        comp = set(eps) if eps else c0.endpoints() & c1.endpoints()
+        tied = set(sps) if sps is not None else c0.startpoints() & c1.startpoints()
+        comp = set(eps) if eps is not None else c0.endpoints() & c1.endpoints()
         prob = check_miter(r[1], c0, c1, tied, comp)
         chk.ob("C04.D.subsets-and-defaults", key, prob is None, file=FILE, func="miter", line=fi.node.lineno, fact=prob or {"tied": sorted(tied), "compared": sorted(comp)},
                expect="tied = given or common startpoints; compared = given or common endpoints")
+    # ---- N: node names that collide with the miter's own naming (sat, dif_<endpoint>, c0_<node> / c1_<node>) ----------------
+    # the miter of a lint-clean circuit must exist whatever its nodes are called; the function fails loudly (ValueError) on these
+    def _nm(names, out="y"):
+        return build({**{x: ("input", []) for x in names}, out: ("and", list(names))}, outputs=[out])
+    for what, cN in (("tied startpoint named sat", _nm(("sat", "b"))), ("tied startpoint named dif_<endpoint>", _nm(("dif_y", "b"))), ("startpoint named c0_<other startpoint>", _nm(("a", "c0_a")))):
+        r = P.call(FILE, "miter", cN)
+        n += 1
+        prob = None
+        if r[0] != "return" or not isinstance(r[1], RefCircuit):
+            prob = {"result": str(r)[:160]}
+        chk.ob("C04.N.names", f"miter::self-miter::{what}", prob is None, file=FILE, func="miter", line=fi.node.lineno, fact=prob or {}, expect="a miter (the copies and helper nodes are named apart whatever the node names are)")
     # blackbox guards
     bb = RefBlackBox("ff", ["d"], ["q"])
     cbb = build({"a": ("input", []), "u.d": ("bb_input", ["a"]), "u.q": ("bb_output", []), "w": ("buf", ["u.q"])}, outputs=["w"], blackboxes={"u": bb})
